@@ -509,6 +509,7 @@ class VLE(Equilibrium, phases='lg'):
         liquid_mol[index] = mol - vapor_mol[index]
         
     def _set_TH_chemical(self, T, H):
+        self._T = self._thermal_condition.T = T
         index = self._index
         mol = self._mol_vle
         vapor_mol = self._vapor_mol
@@ -577,6 +578,7 @@ class VLE(Equilibrium, phases='lg'):
         liquid_mol[index] = mol - vapor_mol[index]
         
     def _set_TS_chemical(self, T, S):
+        self._T = self._thermal_condition.T = T
         index = self._index
         mol = self._mol_vle
         vapor_mol = self._vapor_mol
